@@ -511,6 +511,18 @@ class EbuildProcessor:
         raise TimeoutError(f"ebp for pid '{self.pid}' appears dead, timing out")
 
     def expect(self, want, async_req=False, flush=False, timeout=0):
+        """Like :meth:`_expect`; a timer armed for the call never outlives it."""
+        try:
+            return self._expect(want, async_req=async_req, flush=flush, timeout=timeout)
+        except TimeoutError:
+            return False
+        finally:
+            # the batched path of _expect returns without disarming the timer
+            if timeout and not async_req:
+                signal.setitimer(signal.ITIMER_REAL, 0)
+                signal.signal(signal.SIGALRM, signal.SIG_DFL)
+
+    def _expect(self, want, async_req=False, flush=False, timeout=0):
         """Read from the daemon, check if the returned string is expected.
 
         :param want: string we're expecting
